@@ -14,7 +14,9 @@ Quick == Tier = "quick"
 
 FirstBytes == IF Quick THEN {0, 1, 2, 6, 7, 255} ELSE (0..9) \cup {127, 128, 255}
 MaxLen == 1 + 32 * (5 + 6 + 2 * 4) + 33
-Lens == IF Quick THEN {x \in 0..MaxLen : x % 32 \in {0, 1, 2, 31} \/ x < 4} ELSE 0..MaxLen
+\* long encodings: many folding rounds (the decoder puts no upper limit on k)
+LongLens == { 1 + 32 * (5 + d + 2 * k) + e : d \in {1, 6}, k \in {13, 14, 15, 16, 17, 18, 31, 100}, e \in {0, 1} }
+Lens == (IF Quick THEN {x \in 0..MaxLen : x % 32 \in {0, 1, 2, 31} \/ x < 4} ELSE 0..MaxLen) \cup LongLens
 
 VARIABLES pc, len, fb, nc, tag, pos, pairs, res
 vars == <<pc, len, fb, nc, tag, pos, pairs, res>>
@@ -23,7 +25,7 @@ NCh == IF len = 0 THEN 0 ELSE (len - 1) \div 32       \* number of full chunks
 Rem == IF len = 0 THEN 0 ELSE (len - 1) % 32
 Init == /\ pc = "first" /\ tag = 0 /\ pos = 0 /\ pairs = 0 /\ res = "none"
         /\ len \in Lens /\ fb \in FirstBytes
-        /\ nc \in 0..(IF len = 0 THEN 0 ELSE (len - 1) \div 32)
+        /\ nc \in {x \in 0..(IF len = 0 THEN 0 ELSE (len - 1) \div 32) : x <= 24 \/ x % 16 = 0 \/ x >= ((len - 1) \div 32) - 1}
 Fail == pc' = "done" /\ res' = "err" /\ UNCHANGED <<len, fb, nc, tag, pos, pairs>>
 Step(npc) == pc' = npc /\ UNCHANGED <<len, fb, nc, res>>
 
@@ -48,7 +50,7 @@ Spec == Init /\ [][Next]_vars
 
 \* the acceptance set of C15, in closed form
 Closed == /\ len >= 1 /\ fb \in 1..6 /\ Rem = 0
-          /\ \E k \in 1..20 : NCh = 5 + fb + 2 * k
+          /\ \E k \in 1..120 : NCh = 5 + fb + 2 * k
           /\ (nc = 0 \/ ~(nc <= fb \/ nc \in {fb + 4, fb + 5}))
 C15 == pc = "done" => ((res = "ok") <=> Closed)
 \* decoding is total: every input ends in a value or an error (C16)
